@@ -264,10 +264,12 @@ var deliberateDiscards = map[string]string{
 }
 
 // errPolarity: contradictions between what a path knows about an error variable and what it does with it.
-//   nil-wrapped:  on a path where the variable is known to be nil (the nil edge of its test, no assignment
-//                 since) it is handed to a call that builds an error from it (errmsg.X.Wrap(err),
-//                 fmt.Errorf("…%w", err)) — the test is inverted: the success path reports a failure made of
-//                 nil and the failure path carries on with the zero value.
+//
+//	nil-wrapped:  on a path where the variable is known to be nil (the nil edge of its test, no assignment
+//	              since) it is handed to a call that builds an error from it (errmsg.X.Wrap(err),
+//	              fmt.Errorf("…%w", err)) — the test is inverted: the success path reports a failure made of
+//	              nil and the failure path carries on with the zero value.
+//
 // A plain `return x, err` with a known-nil err is the usual tail idiom and is not reported.
 func errPolarity(p *Prog, fn *Fn) []errDrop {
 	if fn.Body == nil || fn.CFG == nil {
